@@ -587,6 +587,9 @@ func forcedCases(r *hx.Rng, tier string) []Case {
 		} {
 			a, b := ab[0], ab[1]
 			cs = append(cs, Case{Comp: "did", Mode: "forced", A: &a, B: &b, Park: park, Post: []Op{{Kind: "dbyname", ID: 1}, {Kind: "dbyname", ID: 2}}})
+
+			a2, b2 := ab[0], ab[1]
+			cs = append(cs, Case{Comp: "wcont", Mode: "forced", A: &a2, B: &b2, Park: park, Post: []Op{{Kind: "dbyname", ID: 1}, {Kind: "dbyname", ID: 2}}})
 		}
 	}
 
@@ -622,7 +625,7 @@ func stressCases(r *hx.Rng, tier string) []Case {
 			ops := 2 + r.Intn(5)
 
 			limit := 40
-			if comp == "inbox" || comp == "kms" || comp == "did" {
+			if comp == "inbox" || comp == "kms" || comp == "did" || comp == "wcont" {
 				limit = 18 // order-sensitive states (message lists, fresh ids): keeps the witness search feasible
 			}
 
@@ -647,6 +650,7 @@ func stressCases(r *hx.Rng, tier string) []Case {
 	add("reg", Stack{}, 120)
 	add("msg", Stack{}, 120)
 	add("did", Stack{}, 60)
+	add("wcont", Stack{}, 60)
 	add("churn", Stack{Base: "leveldb"}, 10)
 
 	for _, st := range provStacks() {
